@@ -13,7 +13,7 @@ mod c18;
 use model::*;
 
 fn main() {
-    mcx::engine::main(|prop, tier| match prop {
+    mcx::engine::main_promoted(&["C18"], |prop, tier| match prop {
         "C11" => Some(c11(tier)),
         "C18" => Some(c18::def(tier)),
         _ => None,
